@@ -29,11 +29,22 @@ let basic_of = function
   | "bool" -> BBool | "string" -> BString | "int" -> BInt | "int8" -> BInt8 | "int16" -> BInt16
   | "int32" -> BInt32 | "int64" -> BInt64 | "uint" -> BUint | "uint8" -> BUint8 | "uint16" -> BUint16
   | "uint32" -> BUint32 | "uint64" -> BUint64 | "float64" -> BFloat64 | s -> failwith ("basic " ^ s)
-let p_ty () =
+let rec p_ty () =
   match next () with
   | "tb" -> TBasic (basic_of (next ()))
   | "tn" -> let i = n_of_string (next ()) in TNamed (i, basic_of (next ()))
+  | "tp" -> TPtr (p_ty ())
+  | "ts" -> TSlice (p_ty ())
+  | "ta" -> let n = z_of_string (next ()) in TArray (n, p_ty ())
+  | "tm" -> let k = p_ty () in let v = p_ty () in TMap (k, v)
+  | "tst" -> TStruct (p_tys ())
+  | "tf" -> let ps = p_tys () in let rs = p_tys () in TFunc (ps, rs)
+  | "tany" -> TAny
+  | "td" -> let i = n_of_string (next ()) in TDef (i, p_ty ())
   | s -> failwith ("type " ^ s)
+and p_tys () =
+  let k = int_of_string (next ()) in
+  let rec go i = if i = 0 then [] else let x = p_ty () in x :: go (i - 1) in go k
 let p_oty () = if peek () = "-" then (ignore (next ()); None) else Some (p_ty ())
 let unop_of = function "plus" -> UPlus | "neg" -> UNeg | "not" -> UNot | "compl" -> UCompl | s -> failwith ("unop " ^ s)
 let binop_of = function
@@ -60,7 +71,32 @@ let rec p_expr () : expr =
   | "C" -> let t = p_ty () in EConv (t, p_expr ())
   | "A" -> let f = p_id () in ECall (f, p_exprs ())
   | "K" -> let p = p_id () in let f = p_id () in EPkg (p, f, p_exprs ())
+  | "CL" -> let t = p_ty () in expect "<"; ECompLit (t, p_elts ())
+  | "IX" -> let a = p_expr () in let i = p_expr () in EIndex (a, i)
+  | "SL" -> let a = p_expr () in let lo = p_expr () in let hi = p_expr () in ESliceE (a, lo, hi)
+  | "omit" -> EOmit
+  | "AD" -> EAddr (p_expr ())
+  | "DE" -> EDeref (p_expr ())
+  | "SE" -> let i = p_id () in ESel (p_expr (), i)
+  | "AS" -> let t = p_ty () in EAssert (p_expr (), t)
+  | "B" ->
+    (match next () with
+     | "len" -> ELen (p_expr ())
+     | "cap" -> ECap (p_expr ())
+     | "append" -> let a = p_expr () in EAppend (a, p_exprs ())
+     | "make" -> let t = p_ty () in EMake (t, p_exprs ())
+     | "new" -> ENew (p_ty ())
+     | "copy" -> let d = p_expr () in let a = p_expr () in ECopy (d, a)
+     | "delete" -> let m = p_expr () in let k = p_expr () in EDelete (m, k)
+     | s -> failwith ("builtin " ^ s))
   | s -> failwith ("expr " ^ s)
+and p_elts () : elts =
+  match next () with
+  | ">" -> LNil
+  | "p" -> let e = p_expr () in let r = p_elts () in LPos (e, r)
+  | "i" -> let z = z_of_string (next ()) in let e = p_expr () in let r = p_elts () in LIdx (z, e, r)
+  | "k" -> let k = p_expr () in let e = p_expr () in let r = p_elts () in LKey (k, e, r)
+  | s -> failwith ("elt " ^ s)
 and p_exprs () : exprs =
   expect "(";
   let rec go () = if peek () = ")" then (ignore (next ()); ENone) else (let e = p_expr () in let r = go () in ECons (e, r)) in
@@ -83,6 +119,10 @@ let rec p_stmt () : stmt =
   | "break" -> SBreak
   | "continue" -> SContinue
   | "block" -> SBlock (p_block ())
+  | "set" -> let l = p_expr () in let e = p_expr () in SSet (l, e)
+  | "range" ->
+    let k = p_id () in let v = p_id () in let d = next () = "1" in
+    let e = p_expr () in SRange (k, v, d, e, p_block ())
   | s -> failwith ("stmt " ^ s)
 and p_block () : block =
   expect "{";
